@@ -23,6 +23,7 @@ common.import_repo()
 from numba_scfg.core.datastructures.ast_transforms import AST2SCFGTransformer  # noqa: E402
 
 LEVEL = "translation_validation"
+EXTRA_PROPS_FILES = ["Scfg/Props/C08Prune.lean"]
 
 
 def paths(fn, nparams, depth):
